@@ -59,6 +59,9 @@ type Runner struct {
 	Outcome       []string     // observable outcomes of operations (twin comparison)
 	VerAtBegin    uint32       // content version counter when the running transaction began
 	OnQuiescent   func(when string) // called at quiescent points (after transactions, after reopen)
+	TxActiveSlot  int               // active header slot when the running transaction began
+	ReopenFn      func()            // replaces the default close+open+verify of the "reopen" operation
+	OnCommitResult func(rec *CommitRec, err error) // called right after Commit returned
 	txOOMSeen     bool
 	OnTxEnd       func()       // called right after a write transaction ended (before post checks)
 	BeforeEnd     func()       // called right before Commit/Rollback/Close is invoked
@@ -138,6 +141,21 @@ func (r *Runner) OpenWith(o txfile.Options) error {
 	r.Cur().TxID = h.TxID
 	// let the new File's writer goroutine register with the scheduler before
 	// anything else is started (deterministic goroutine names)
+	r.E.Yield("opened")
+	return nil
+}
+
+// OpenRaw opens the file without touching the model (txid of the current state is kept).
+func (r *Runner) OpenRaw() error {
+	if err := r.D.Lock(true, false); err != nil {
+		return err
+	}
+	f, err := txfile.VerifOpenWith(r.D, r.Options())
+	if err != nil {
+		r.D.Unlock()
+		return err
+	}
+	r.F = f
 	r.E.Yield("opened")
 	return nil
 }
@@ -275,6 +293,7 @@ func (r *Runner) apply(op Op) bool {
 		r.txRoot = r.Cur().Root
 		r.txDirtyUnknown = false
 		r.txOOM = false
+		r.TxActiveSlot = txfile.VerifHeaderSnapshot(r.F).Active
 		r.VerAtBegin = r.ver
 		r.txDataEnd = txfile.VerifAllocSnapshot(r.F).DataEnd
 		if got := tx.Root(); got != r.txRoot {
@@ -570,7 +589,11 @@ func (r *Runner) apply(op Op) bool {
 		if r.tx != nil || r.F == nil {
 			return false
 		}
-		r.Reopen()
+		if r.ReopenFn != nil {
+			r.ReopenFn()
+		} else {
+			r.Reopen()
+		}
 		return true
 	}
 	panic("unknown op " + op.K)
@@ -671,6 +694,15 @@ func (r *Runner) doCommit() {
 	if r.OnTxEnd != nil {
 		r.OnTxEnd()
 	}
+	if r.OnCommitResult != nil {
+		if err == nil {
+			next.TxID = txfile.VerifHeaderSnapshot(r.F).TxID
+		}
+		r.OnCommitResult(&r.Commits[ci], err)
+		if e.Failed() {
+			return
+		}
+	}
 	if err != nil {
 		r.Commits[ci].End = r.D.Marker(fmt.Sprintf("commit-err %d", next.N))
 		e.Probe("commit_failed")
@@ -766,16 +798,27 @@ func (r *Runner) CheckLocksIdle(when string) {
 func (r *Runner) Reopen() {
 	e := r.E
 	if err := r.F.Close(); err != nil {
-		e.Fail("C10", "close-error", "File.Close failed: %v", err)
-		return
+		if !r.Faulty {
+			e.Fail("C10", "close-error", "File.Close failed: %v", err)
+			return
+		}
 	}
 	r.F = nil
 	if err := r.Open(); err != nil {
-		e.Fail("C10", "reopen-error", "reopening the file failed: %v", err)
-		return
+		if r.Faulty {
+			// opening may fail while faults are injected; retry without faults
+			r.D.ClearFaults()
+			if err2 := r.Open(); err2 != nil {
+				r.fail("C08", "reopen-error", "opening failed under injected faults (%v) and still fails after the faults stopped: %v", err, err2)
+				return
+			}
+		} else {
+			e.Fail("C10", "reopen-error", "reopening the file failed: %v", err)
+			return
+		}
 	}
 	e.Probe("reopen")
-	if txfile.VerifHeaderSnapshot(r.F).TxID != r.Cur().TxID {
+	if txfile.VerifHeaderSnapshot(r.F).TxID != r.Cur().TxID && !r.Faulty {
 		e.Fail("C10", "reopen-txid", "reopened file is at header txid %d, expected %d", txfile.VerifHeaderSnapshot(r.F).TxID, r.Cur().TxID)
 	}
 	r.VerifyAll("after reopen")
